@@ -26,6 +26,11 @@ let arop_of = function
   | "add" -> OpAdd | "sub" -> OpSub | "mul" -> OpMul | "div" -> OpDiv
   | s -> failwith ("bad arop " ^ s)
 
+let intop_of = function
+  | "sll" -> IShl | "sra" -> ISra | "srl" -> ISrl | "imod" -> IMod
+  | "band" -> IAnd | "bor" -> IOr | "bxor" -> IXor
+  | s -> failwith ("bad intop " ^ s)
+
 let show_bool_res = function Ok true -> "Btrue" | Ok false -> "Bfalse" | Err -> "ERR"
 let show_num_res = function Ok n -> show_num n | Err -> "ERR"
 
@@ -47,11 +52,22 @@ let () =
          let r = show_num_res (mod_do a b) in
          let sp = (match spec_mod a b with Some x -> show_num_res x | None -> "-") in
          Printf.printf "%s\t%s\t%s\n" id r sp
+       | ["int"; op; a; b] ->
+         (* integer-only builtins (IntegerDo): model int_function [a; b], spec spec_integer *)
+         let a = parse_num a and b = parse_num b and op = intop_of op in
+         Printf.printf "%s\t%s\t%s\n" id (show_num_res (int_function op [a; b])) (show_num_res (spec_integer op a b))
+       | ["bnot"; _; a] ->
+         let a = parse_num a in
+         Printf.printf "%s\t%s\t%s\n" id (show_num_res (complement a)) (show_num_res (spec_complement a))
        | "fold" :: op :: vals ->
          (* n-ary fold; observable "result;a;b;c..." : the operands must come back unchanged *)
          let vs = List.map parse_num vals and op = arop_of op in
          let r = show_num_res (numeric_fold op vs) in
          let obs = String.concat ";" (r :: List.map show_num vs) in
-         Printf.printf "%s\t%s\t%s\n" id obs obs
+         (* the oracle speaks for + - * on all-int64 / all-uint64 operand lists (exact fold, reduced once) *)
+         let sp = (match spec_fold op vs with
+                   | Some x -> String.concat ";" (show_num_res x :: List.map show_num vs)
+                   | None -> obs) in
+         Printf.printf "%s\t%s\t%s\n" id obs sp
        | _ -> failwith ("bad case: " ^ body))
     | _ -> failwith ("bad line: " ^ line))
